@@ -11,6 +11,7 @@ Nothing in /repo is edited; the patching happens in the checking process only.
 from __future__ import annotations
 
 import asyncio
+import collections
 import copy
 import functools
 import importlib
@@ -131,6 +132,8 @@ def make_wrapper(world, twins, contract, target, orig, is_static, needs_self):
         st = {"env": env, "ctx": ctx, "self": selfobj, "olds": {}, "whens": {}, "frame": {}}
         try:
             for k, r in enumerate(contract.requires):
+                if r.startswith("ghost:"):
+                    continue          # preconditions over model-only state exist only in verification conditions
                 if not ctx.eval(r, env):
                     REC.add(Violation("pre", short, f"requires#{k}", r, call=_describe(env)))
             for lab, e in contract.ensures:
@@ -145,7 +148,7 @@ def make_wrapper(world, twins, contract, target, orig, is_static, needs_self):
                 for f in frame_fields:
                     if hasattr(selfobj, f):
                         v = getattr(selfobj, f)
-                        st["frame"][f] = copy.copy(v) if isinstance(v, (set, list, dict)) else v
+                        st["frame"][f] = copy.copy(v) if isinstance(v, (set, list, dict, collections.deque)) else v
         except Exception as e:  # a specification that cannot be evaluated is reported, not hidden
             REC.add(Violation("spec-error", short, "before", repr(e), traceback.format_exc(limit=3), call=_describe(env)))
         return st
